@@ -177,6 +177,7 @@ def check(facts, rep, tier, cfg):
     rep.rule("C11.R6", "get_datagram is cancel safe: no suspension point after a datagram has been taken off the queue (it is polled inside select! by the client and the server)")
     check_receive_cancel_safe(facts, rep, crate)
     check_option_setters(facts, rep, crate, "C11.R4", ['datagram_buffer_size'])
+    check_send_failure_not_fatal(facts, rep)
     rep.rule("C11.S1", "S1: every message taken off the outbound queue is handed to the WebSocket sink by the send loop (= C02.R2): the frames this property relies on are not dropped, deduplicated or reordered on the way out")
     import_outbound_queue_rule(facts, rep, tier, cfg, "C11.S1")
     rep.rule("C11.S7", "who-may: the functions that touch the critical resources behind this property are those of the reference tree (flow table, closed flag, per-stream / datagram / outbound queues, last-pong timestamp, client id maps, shared TLS identity)")
@@ -303,3 +304,77 @@ def check_receive_cancel_safe(facts, rep, crate):
             else:
                 rep.ok("C11.R6", "receive-cancel-safe", where, "no suspension point between the dequeue and the return")
     rep.floor("C11.R6", "datagram receive awaits", k, 1)
+
+
+def check_send_failure_not_fatal(facts, rep):
+    """Callers of Multiplexor::send_datagram in the application crate: a refused datagram (host name too long) 'has no other effect' and
+    'no datagram terminates the connection' - so the Err edge of the call must lead back into the caller's loop, not to a return of the
+    function that owns the connection. Leaving only on the `Closed` variant (the multiplexor is gone anyway) is accepted."""
+    rid = "C11.R7"
+    rep.rule(rid, "a datagram the sender refuses does not end the connection: at every send_datagram call of the client / server loops the Err "
+                  "edge returns to the loop (a return is reachable from it only under a test for the Closed variant)")
+    crate = facts.crate("rusty_penguin_lib")
+    if crate is None:
+        return
+    n = 0
+    for b in crate.bodies:
+        if "::tests::" in b.path or b.file.endswith("tests.rs"):
+            continue
+        tr = None
+        for cbi, t in b.calls():
+            c = callee(t)
+            if not c or c["name"] != "send_datagram" or "Multiplexor" not in c["path"]:
+                continue
+            tr = tr or Tracer(facts, b)
+            n += 1
+            rep.analysed(b)
+            where = "%s (%s)" % (loc_str(t["loc"]), b.path)
+            key = "send-failure-not-fatal/%s" % b.path.split("::{")[0]
+            # innermost loop header: dominates the call and is reachable from it
+            pred = b.pred
+            heads = [h for h in range(len(b.blocks)) if h != cbi and b.dominates(h, cbi) and h in b.reachable_from(cbi)
+                     and any(b.dominates(h, p_) for p_ in pred[h])]         # natural-loop headers whose loop contains the call
+            head = heads[0] if heads else None
+            if head is None:
+                rep.ok(rid, key, where, "not inside a loop: nothing to tear down", nontrivial=False)
+                continue
+            bad = None
+            for gb in b.reachable_from(cbi, cut=set(heads)):
+                if b.term(gb)["k"] != "SwitchInt":
+                    continue
+                g = guard_at(facts, b, tr, gb)
+                if g is None or not any(x.kind == "call" and x[6] == "send_datagram" for x in walk(g.pred)):
+                    continue
+                for succ, v in g.edges:
+                    failing = (g.kind == "discr" and v in ("Err", "Break")) or \
+                              (g.kind == "bool" and strip(g.pred).kind == "call" and strip(g.pred)[6] in ("is_err", "is_ok") and v == (strip(g.pred)[6] == "is_err"))
+                    if not failing:
+                        continue
+                    # walk from the failing edge; at a test of the error's variant follow every edge except `Closed`
+                    seen, st = set(), [succ]
+                    while st:
+                        x = st.pop()
+                        if x in seen or x in heads:
+                            continue
+                        seen.add(x)
+                        tx = b.term(x)
+                        if tx["k"] == "Return":
+                            bad = x
+                            break
+                        nxt = list(b.succ[x])
+                        if tx["k"] == "SwitchInt":
+                            g2 = guard_at(facts, b, tr, x)
+                            if g2 is not None and g2.kind == "discr" and g2.adt and g2.adt.endswith("Error"):
+                                nxt = [s2 for s2, v2 in g2.edges if v2 != "Closed"]
+                        st.extend(nxt)
+                    if bad is not None:
+                        break
+                if bad is not None:
+                    break
+            if bad is not None:
+                rep.bad(rid, key, where,
+                        "when send_datagram fails (e.g. DatagramHostTooLong for a target host of more than 255 octets) this loop returns "
+                        "(%s): one refused datagram ends the whole connection and resets every stream on it" % loc_str(b.term(bad)["loc"]))
+            else:
+                rep.ok(rid, key, where, "the Err edge goes back to the loop")
+    rep.floor(rid, "send_datagram call sites in the application loops", n, 2)
